@@ -36,7 +36,7 @@ def replay : Handler := fun j => do
   let i ← parseInst j
   let sizes ← fieldNats j "sizes"
   let start ← fieldNat j "start"
-  let sized := start == 0 && kindsOk i sizes.length && sizedOk (traceOf i 0) sizes.length sizes
+  let sized := kindsOk i sizes.length && sizedOk (traceOf i 0) sizes.length sizes
   pure <| Json.mkObj [("ok", Json.bool (replayOk i sizes start)), ("consecutive", Json.bool (consecOk i sizes.length start)), ("sized", Json.bool sized)]
 
 /-- {"cmd":"sched.bufsize", "pairs":[{"min_in":[..], "max_out":[..]}, ...]} → {"sizes":[..]} (model of `get_buffer_sizes`, one entry per pair) -/
